@@ -74,6 +74,8 @@ def check_context_presence(prog, rep, rule):
             t = r[0]
             # `x?` leaves with Err exactly when `x is Ok` fails: normalised, that test is "the context has the label"
             ok_test = norm.Normalizer()(("matches", t, norm.OK_DESC))
+            if ok_test[0] == "hof" and ok_test[1] == "all":
+                ok_test = ok_test[3]            # a fallible item per label, collected: Ok iff every label passes
             h = q.as_has(ok_test)
             if h is not None and h[0] == ctx and elems_over(h[1], is_src):
                 err_ok = True
